@@ -13,9 +13,41 @@
 pub mod sync {
     pub mod mpsc {
         use crate::SeqCell as Mutex;
-        use std::collections::VecDeque;
         use std::sync::Arc;
         use std::task::Poll;
+        /// fixed-capacity ring (no heap growth): overflow is a hard error, never silently dropped
+        pub const QCAP: usize = 4;
+        pub struct VecDeque<T> {
+            pub items: [Option<T>; QCAP],
+            pub head: usize,
+            pub len: usize,
+        }
+        impl<T> VecDeque<T> {
+            pub fn new() -> Self {
+                Self { items: Default::default(), head: 0, len: 0 }
+            }
+            pub fn len(&self) -> usize {
+                self.len
+            }
+            pub fn push_back(&mut self, v: T) {
+                if self.len >= QCAP {
+                    panic!("tokio shim: channel bound exceeded");
+                }
+                let i = (self.head + self.len) % QCAP;
+                self.items[i] = Some(v);
+                self.len += 1;
+            }
+            pub fn pop_front(&mut self) -> Option<T> {
+                if self.len == 0 {
+                    return None;
+                }
+                let h = self.head;
+                let v = self.items[h].take();
+                self.head = (self.head + 1) % QCAP;
+                self.len -= 1;
+                v
+            }
+        }
         pub mod error {
             #[derive(Debug)]
             pub struct SendError<T>(pub T);
@@ -260,21 +292,11 @@ pub struct Ctl {
     pub timer_mode: u8,
 }
 pub static CTL: SeqCell<Ctl> = SeqCell::new(Ctl { spawn_register: false, timer_mode: 0 });
-#[cfg(kani)]
 pub fn nondet_usize() -> usize {
-    kani::any()
+    vwit::any_usize()
 }
-#[cfg(kani)]
 pub fn nondet_bool() -> bool {
-    kani::any()
-}
-#[cfg(not(kani))]
-pub fn nondet_usize() -> usize {
-    0
-}
-#[cfg(not(kani))]
-pub fn nondet_bool() -> bool {
-    false
+    vwit::any_bool()
 }
 pub fn spawn<F>(f: F) -> task::JoinHandle<F::Output>
 where
@@ -324,6 +346,36 @@ pub fn noop_waker() -> std::task::Waker {
     static VT: RawWakerVTable = RawWakerVTable::new(clone, noop, noop, noop);
     unsafe { Waker::from_raw(RawWaker::new(std::ptr::null(), &VT)) }
 }
+
+/// Result of an `async fn` lowered to a plain function by the overlay (kani/overlay.py, deasync): already computed.
+pub struct Ready<T>(pub T);
+impl<T> Ready<T> {
+    #[inline(always)]
+    pub fn vnow(self) -> T {
+        self.0
+    }
+}
+impl<T: Unpin> std::future::Future for Ready<T> {
+    type Output = T;
+    fn poll(self: std::pin::Pin<&mut Self>, _cx: &mut std::task::Context<'_>) -> std::task::Poll<T> {
+        // move the value out exactly once (polling again is a harness error)
+        let me = unsafe { std::ptr::read(&self.get_mut().0) };
+        std::task::Poll::Ready(me)
+    }
+}
+/// `.await` of a lowered function: poll exactly once; a future that is not ready is a hard error (never assumed away).
+pub trait VNow: std::future::Future + Sized {
+    fn vnow(self) -> Self::Output {
+        let mut f = std::pin::pin!(self);
+        let w = noop_waker();
+        let mut cx = std::task::Context::from_waker(&w);
+        match f.as_mut().poll(&mut cx) {
+            std::task::Poll::Ready(v) => v,
+            std::task::Poll::Pending => panic!("verif: awaited future not ready in a lowered function"),
+        }
+    }
+}
+impl<F: std::future::Future> VNow for F {}
 
 include!("select.rs");
 
